@@ -55,6 +55,7 @@ type Outcome struct {
 // Exec runs the check once on the given tape.
 func (c *Check) Exec(t *testing.T, tape *Tape, trace bool) (out *Outcome) {
 	e := newEnv(t, tape, trace)
+	ticks = 0 // the yield points of core.Tick are a function of the run, not of the process
 	tape.OnOverrun = func() { e.Infra("replayed tape overrun: a harness loop does not terminate on zero draws") }
 	body := func(t *testing.T) {
 		e.T = t
@@ -231,6 +232,7 @@ func OnExit(f func()) { exitHooks = append(exitHooks, f) }
 
 // Main is called from each check's TestCheck.
 func Main(t *testing.T, c *Check) {
+	gcPolicy()
 	defer func() {
 		for _, f := range exitHooks {
 			f()
@@ -359,7 +361,10 @@ func Main(t *testing.T, c *Check) {
 		}
 		// Periodic replay self-check: same tape must give same hash.
 		if out.Viol == nil && (res.Runs == 1 || res.Runs%257 == 0) {
-			again := c.Exec(t, ReplayTape(out.Tape), false)
+			again := c.Exec(t, ReplayTape(out.Tape), traceThis)
+			if traceThis {
+				_ = os.WriteFile(os.Getenv("VERIF_TRACE_OUT")+".again", []byte(strings.Join(again.Trace, "\n")+"\n"), 0o644)
+			}
 			if again.Hash == out.Hash && again.Viol == nil {
 				res.ReplayOK++
 			} else {
@@ -457,13 +462,32 @@ func (c *Check) replay(t *testing.T, path string) {
 	}
 }
 
-var heapSample = []metrics.Sample{{Name: "/memory/classes/heap/free:bytes"}, {Name: "/memory/classes/heap/unused:bytes"}}
+var heapSample = []metrics.Sample{
+	{Name: "/memory/classes/heap/free:bytes"},
+	{Name: "/memory/classes/heap/unused:bytes"},
+	{Name: "/memory/classes/heap/objects:bytes"},
+}
 
-// trimHeap runs between runs (outside any bubble): memory the collector has freed but not
-// yet given back to the operating system is returned once it exceeds 256 MiB, so that 16
-// shards of a check with large transient states stay far below the machine's memory.
+// gcPolicy: the collector does not run on its own inside a run unless the heap reaches the
+// memory limit (VERIF_MEMLIMIT_MB, default 1024). A collection that ends in the middle of a
+// quiescence step wakes the sweeper into the scheduler's "run next" slot and can thereby push
+// a just-woken goroutine of the simulated system behind its neighbours - rare, but not a
+// choice the tape made. Collections happen between runs instead (trimHeap).
+func gcPolicy() {
+	debug.SetGCPercent(-1)
+	debug.SetMemoryLimit(int64(envInt("VERIF_MEMLIMIT_MB", 1024)) << 20)
+}
+
+// trimHeap runs between runs (outside any bubble): collect once more than 128 MiB of objects
+// have piled up, and return freed memory to the operating system once more than 256 MiB are
+// idle, so that 16 shards of a check with large transient states stay far below the machine's
+// memory.
 func trimHeap() {
 	metrics.Read(heapSample)
+	if heapSample[2].Value.Uint64() > 128<<20 {
+		runtime.GC()
+		metrics.Read(heapSample)
+	}
 	if heapSample[0].Value.Uint64()+heapSample[1].Value.Uint64() > 256<<20 {
 		debug.FreeOSMemory()
 	}
